@@ -273,7 +273,7 @@ def check_legacy_blake2_keys_shapes(ctx, P, rule="shape-eval"):
         if any(k not in fi for k in ("ctx", "computed", "key", "keylen")):
             ctx.lost(rule, T, "fields changed: %s" % fields)
             continue
-        for kind in ("new_keyed", "reset_with_key"):
+        for kind in ("new", "new_keyed", "reset_with_key"):
             fn = P.fn_opt("%s::%s" % (T, kind))
             inst = "%s::%s" % (T, kind)
             if fn is None:
@@ -281,7 +281,7 @@ def check_legacy_blake2_keys_shapes(ctx, P, rule="shape-eval"):
                 continue
             bad = []
             n = 0
-            for kl in range(mk + 1):
+            for kl in (range(mk + 1) if kind != "new" else (0,)):
                 B = simd.TermBank()
                 key = [B.inp("k[%d]" % i, 8) for i in range(kl)]
                 M = simd.Machine(P, B, 64, {}, maxsteps=400000)
@@ -301,10 +301,15 @@ def check_legacy_blake2_keys_shapes(ctx, P, rule="shape-eval"):
                     if isinstance(tgt, dict) and "_ctx" in tgt:
                         tgt["_ctx"] = 1 if tgt["_ctx"] == 0 else -1
                     return None
-                M.hooks = [(_re.compile(_re.escape(inner) + r"::new_keyed$"), h_new), (_re.compile(_re.escape(inner) + r"::reset_with_key$"), h_rk)]
+                def h_new0(m_, f_, c_, a_, ev=ev):
+                    ev.append(("new", a_[0]))
+                    return {"_ctx": 1}
+                M.hooks = [(_re.compile(_re.escape(inner) + r"::new_keyed$"), h_new), (_re.compile(_re.escape(inner) + r"::reset_with_key$"), h_rk), (_re.compile(_re.escape(inner) + r"::new$"), h_new0)]
                 kref = ("aslice", {i: key[i] for i in range(kl)}, 0, kl)
                 try:
-                    if kind == "new_keyed":
+                    if kind == "new":
+                        st = M.call_fn(fn, [mk // 2])
+                    elif kind == "new_keyed":
                         st = M.call_fn(fn, [mk // 2, kref])
                     else:
                         box = Box({fi["ctx"]: {"_ctx": 0}, fi["computed"]: True, fi["key"]: {i: B.inp("old[%d]" % i, 8) for i in range(mk)}, fi["keylen"]: 7})
@@ -316,7 +321,7 @@ def check_legacy_blake2_keys_shapes(ctx, P, rule="shape-eval"):
                 n += 1
                 gk = [M.scalar_bits(st[fi["key"]][i], 8) for i in range(mk)]
                 wk = key + [B.const(0, 8)] * (mk - kl)
-                want_ev = [("new_keyed", mk // 2, tuple(key))] if kind == "new_keyed" else [("reset_with_key", tuple(key))]
+                want_ev = [("new", mk // 2)] if kind == "new" else [("new_keyed", mk // 2, tuple(key))] if kind == "new_keyed" else [("reset_with_key", tuple(key))]
                 what = None
                 if ev != want_ev:
                     what = "the wrapped context is not keyed with exactly the key given (%d calls)" % len(ev)
@@ -332,10 +337,11 @@ def check_legacy_blake2_keys_shapes(ctx, P, rule="shape-eval"):
                     bad.append((kl, what))
                     if len(bad) > 2:
                         break
-            ok = not bad and n == mk + 1
+            ok = not bad and n == (mk + 1 if kind != "new" else 1)
             ctx.check(ok, rule, inst, "key lengths 0..%d: context keyed with (outlen, key), key || zeros and its length retained, computed cleared" % mk,
                       "%s does not key its context and retain the key: (key length, what) %s" % (inst, bad[:3]), where=fn.where(), key="%s:%s" % (rule, inst))
             if ok:
                 done += 1
                 ctx.subsume("rekey:%s:retains-key" % inst, "%s is decided for every key length by shape evaluation (shape-eval)" % inst)
+                ctx.subsume("ctor:%s" % inst, "%s is decided by shape evaluation (shape-eval)" % inst)
     return done
